@@ -81,7 +81,7 @@ def operation(draw, where):
     kinds = ["inject_def"] * 5 + ["inject_mod"] * 2 + ["slice_remod"] * 2 + ["import_children", "import_children", "import_single", "import_all",
                                                        "import_host", "import_host", "import_over", "import_mod_ref"]
     if where != "remote":
-        kinds += ["mod_src"] * 6
+        kinds += ["mod_src"] * 6 + ["ref_mod_ref"] * 2
     k = draw(st.sampled_from(kinds))
     if k == "mod_src":
         key = draw(st.sampled_from(["src.len", "src.cnt", "src.flag", "src.name", "src.arr"]))
@@ -90,6 +90,13 @@ def operation(draw, where):
                "src.arr": [draw(st.sampled_from([5.0, 6.5, 0.0, 10.0])) for _ in range(3)]}[key]
         unit = draw(st.sampled_from([None] + LEN)) if key in ("src.len", "src.arr") else None
         return ["mod_src", key, val, unit]
+    if k == "ref_mod_ref":
+        # host = {?x} / x = new value / host = {?x}: the same reference twice, the referenced node changed in between and
+        # no node defined in between - the second reference delivers the value the node has THEN
+        key = draw(st.sampled_from(["src.len", "src.cnt", "src.name"]))
+        val = {"src.len": draw(st.sampled_from([3.0, 8.5, 150.0, 0.0])), "src.cnt": draw(st.integers(-9, 99)),
+               "src.name": draw(st.sampled_from(WORDS))}[key]
+        return ["ref_mod_ref", key, val]
     if k == "inject_def":
         key = draw(st.sampled_from(KEYS))
         unit = draw(st.sampled_from([None, None] + LEN)) if key in ("src.len", "src.arr") else None
@@ -331,6 +338,25 @@ def build(case):
                 info["after_mod"] = True
             if unit and unit != h["unit"]:
                 info["unit_change"] = True
+        elif k == "ref_mod_ref":
+            _k, key, newv = op
+            sn = final.nodes[key]
+            if key not in hosts:
+                hp = f"h{next(n)}"
+                L.append(f"{hp} {sn['type']} = " + "{?" + key + "}")
+                final.add(hp, sn["type"], sn["unit"], _copy(sn["value"]))
+                hosts[key] = hp
+                all_hosts.append((hp, False))
+            hp = hosts[key]
+            h = final.nodes[hp]
+            L.append(f"{hp} = " + "{?" + key + "}")
+            L.append(f"{key} = {lit(newv)}" + (f" {sn['unit']}" if sn["unit"] else ""))
+            L.append(f"{hp} = " + "{?" + key + "}")
+            sn["value"] = newv
+            modified.add(key)
+            h["value"] = conv(newv, sn["unit"], h["unit"])
+            info["after_mod"] = True
+            info["same_reference_twice_around_a_modification"] = True
         elif k == "import_mod_ref":
             _k, key, newv = op
             sn = resolve.nodes[key]
